@@ -8,11 +8,12 @@ NEAR = "y" * 19          # longest string that still is a literal
 
 KINDS_FULL = [
     "absent", "null", "bool", "int", "float", "s_abc", "s_xyz", "s_int", "s_float", "s_bool", "s_long", "s_empty",
-    "l_empty", "l_null", "l_int", "l_int_str", "l_objs", "l_lists", "o_empty", "o_k", "o_kj",
+    "l_empty", "l_null", "l_int", "l_int_str", "l_objs", "l_lists", "o_empty", "o_k", "o_kj", "l_obj_xy", "l_objs_xy_x",
 ]
 KINDS_INTERACT = ["absent", "null", "int", "s_abc", "s_int", "s_float", "s_bool", "l_empty", "l_null"]
 KINDS_DATE = ["s_date", "s_time", "s_datetime", "s_int", "s_abc", "null"]
 KINDS_SMALL = ["absent", "null", "int", "float", "s_abc", "s_int", "l_empty", "l_int", "o_k", "l_objs"]
+KINDS_NEST = ["absent", "null", "o_k", "o_kj", "l_objs", "l_obj_xy", "l_objs_xy_x", "o_xy", "o_xyz", "l_empty", "o_empty", "s_abc"]
 
 ATOMS = {"s_abc": "abc", "s_xyz": "xyz", "s_int": "12", "s_float": "1.5", "s_bool": "true", "s_long": LONG, "s_empty": "",
          "s_date": "2020-01-02", "s_time": "11:22:33", "s_datetime": "2020-01-02T11:22:33", "s_near": NEAR, "s_int2": "-7",
@@ -57,6 +58,15 @@ def build(ch, tag, kind, sym=False):
         return {"k": leaf(ch, tag + ".k", "int", sym)}
     if kind == "o_kj":
         return {"k": "12", "j": leaf(ch, tag + ".j", "float", sym)}
+    if kind == "l_obj_xy":
+        return [{"x": leaf(ch, tag + "[0].x", "int", sym), "y": leaf(ch, tag + "[0].y", "int", sym)}]
+    if kind == "l_objs_xy_x":
+        return [{"x": leaf(ch, tag + "[0].x", "int", sym), "y": leaf(ch, tag + "[0].y", "int", sym)},
+                {"x": leaf(ch, tag + "[1].x", "int", sym)}]
+    if kind == "o_xy":
+        return {"x": leaf(ch, tag + ".x", "int", sym), "y": leaf(ch, tag + ".y", "int", sym)}
+    if kind == "o_xyz":
+        return {"x": leaf(ch, tag + ".x", "int", sym), "y": "abc", "z": None}
     if kind == "o_deep":
         return {"k": {"z": leaf(ch, tag + ".k.z", "int", sym)}, "m": [{"z": None}]}
     raise ValueError(kind)
